@@ -114,7 +114,7 @@ func genQuery(r *Rng, m *qMeta) []string {
 		case 37:
 			return []string{"CREATE TABLE made (id, total) AS SELECT g, SUM(v) FROM a GROUP BY g;", "SELECT * FROM made;", "INSERT INTO made SELECT id, w FROM b;"}
 		case 38:
-			return []string{"DECLARE tq VIEW AS SELECT id, g, v FROM a WHERE v IS NOT NULL;", "UPDATE tq SET v = v * 2 WHERE g > 0;", "SELECT g, SUM(v) FROM tq GROUP BY g;", "DISPOSE TABLE tq;"}
+			return []string{"DECLARE tq VIEW AS SELECT id, g, v FROM a WHERE v IS NOT NULL;", "UPDATE tq SET v = v * 2 WHERE g > 0;", "SELECT g, SUM(v) FROM tq GROUP BY g;", "DISPOSE VIEW tq;"}
 		case 0:
 			return []string{fmt.Sprintf("SELECT id, g, v, s FROM a WHERE %s;", genCond(r, "", G))}
 		case 1:
